@@ -1,11 +1,978 @@
 /-
-Model of `bc::CodeGen::translate` (`src/bc.rs`): IR → bytecode. (Port in progress.)
+Model of `bc::CodeGen::translate` (`src/bc.rs`): IR → bytecode, together with `Expr::codegen`
+(`src/ir.rs`). The port is step by step: same passes, same iteration orders, same tie-breaking.
+
+Conventions
+* Every place where the Rust would panic (`unwrap` on `None`, index out of bounds, `usize`/`u16`
+  underflow in a debug build, the final `assert!`) is an `Except.error "<site>"`; `translateE` returns
+  the error, `translate` maps it to an obviously invalid sentinel program.
+* `HashMap`/`HashSet` are association lists / duplicate-free lists. Wherever the Rust ITERATES one of
+  them the result does not depend on the iteration order (argued at each site, search for `ORDER`).
+* `BinaryHeap`s are sorted lists with the element that `peek`/`pop` would return at the head; the order
+  in which a heap hands out its elements depends only on the multiset it contains.
+* `BTreeSet<usize>` of write positions: only queried with `range(from..to).any(..)`, a plain list.
 -/
 import Hpbf.Ir
 import Hpbf.Bc
 
 namespace Hpbf
 namespace BcGen
+
+variable {w : Nat}
+
+/-! ### association lists and sets -/
+
+def alGet {κ ν : Type} [DecidableEq κ] : List (κ × ν) → κ → Option ν
+  | [], _ => none
+  | (k', v) :: rest, k => if k' = k then some v else alGet rest k
+
+/-- `HashMap::insert` (overwrites). -/
+def alSet {κ ν : Type} [DecidableEq κ] : List (κ × ν) → κ → ν → List (κ × ν)
+  | [], k, v => [(k, v)]
+  | (k', v') :: rest, k, v => if k' = k then (k', v) :: rest else (k', v') :: alSet rest k v
+
+/-- `HashMap::remove`. -/
+def alErase {κ ν : Type} [DecidableEq κ] : List (κ × ν) → κ → List (κ × ν)
+  | [], _ => []
+  | (k', v') :: rest, k => if k' = k then rest else (k', v') :: alErase rest k
+
+/-- `HashSet::insert`. -/
+def setInsert {κ : Type} [DecidableEq κ] (s : List κ) (k : κ) : List κ :=
+  if s.contains k then s else s ++ [k]
+
+/-- `HashSet::remove`. -/
+def setErase {κ : Type} [DecidableEq κ] (s : List κ) (k : κ) : List κ := s.filter (fun x => !(x == k))
+
+/-! ### heaps -/
+
+/-- `BinaryHeap<Reverse<usize>>::push`: ascending list, `pop` takes the head. -/
+def minPush (x : Nat) : List Nat → List Nat
+  | [] => [x]
+  | y :: ys => if y ≤ x then y :: minPush x ys else x :: y :: ys
+
+/-- Strict order of `(Reverse(end), tmp)`: `a` is handed out before `b`. -/
+def nreGt (a b : Nat × Nat) : Bool := a.1 < b.1 || (a.1 == b.1 && a.2 > b.2)
+
+/-- `BinaryHeap<(Reverse<usize>, usize)>::push`: descending (in heap order) list, `peek`/`pop` = head. -/
+def nrePush (x : Nat × Nat) : List (Nat × Nat) → List (Nat × Nat)
+  | [] => [x]
+  | y :: ys => if nreGt y x then y :: nrePush x ys else x :: y :: ys
+
+/-! ### `Analysis` -/
+
+structure Analysis where
+  hasShift : Bool
+  writes : List Int
+  subAnal : List Analysis
+  minAcc : Int
+  maxAcc : Int
+  deriving Inhabited
+
+def Analysis.empty : Analysis :=
+  { hasShift := false, writes := [], subAnal := [], minAcc := 0, maxAcc := 0 }
+
+/-- `Analysis::accessed`. -/
+def Analysis.accessed (a : Analysis) (v : Int) : Analysis :=
+  let a := if a.minAcc > v then { a with minAcc := v } else a
+  if a.maxAcc < v then { a with maxAcc := v } else a
+
+/-- `Analysis::written`. -/
+def Analysis.written (a : Analysis) (v : Int) : Analysis :=
+  let a := a.accessed v
+  if !a.hasShift then { a with writes := setInsert a.writes v } else a
+
+/-- The `Loop`/`If` arm of `Analysis::analyze` once the sub-block has been analysed.
+ORDER: `for &var in &sub_analysis.writes { anal.written(var) }` iterates a `HashSet`; `written` only
+updates min/max and inserts into a set (`has_shift` is false throughout), so the order is immaterial. -/
+def Analysis.absorb (a : Analysis) (cond : Int) (sub : Analysis) : Analysis :=
+  let a := a.accessed cond
+  let a := a.accessed sub.minAcc
+  let a := a.accessed sub.maxAcc
+  let a :=
+    if sub.hasShift then { a with hasShift := true, writes := [] }
+    else if !a.hasShift then sub.writes.foldl Analysis.written a
+    else a
+  { a with subAnal := a.subAnal ++ [sub] }
+
+def Analysis.calc (a : Analysis) (calcs : List (Int × Expr w)) : Analysis :=
+  calcs.foldl (fun a ve => ((Expr.variables ve.2).foldl Analysis.accessed a).written ve.1) a
+
+/-- `if block.shift != 0 { anal.has_shift = true }`. -/
+def Analysis.close (a : Analysis) (shift : Int) : Analysis :=
+  if shift != 0 then { a with hasShift := true } else a
+
+mutual
+/-- One instruction of the loop in `Analysis::analyze`. -/
+def analyzeInstr : Ir.Instr w → Analysis → Analysis
+  | .output src, a => a.accessed src
+  | .input dst, a => a.written dst
+  | .calc calcs, a => a.calc calcs
+  | .loop cond shift body _, a => a.absorb cond ((analyzeInsts body Analysis.empty).close shift)
+  | .ifnz cond shift body, a => a.absorb cond ((analyzeInsts body Analysis.empty).close shift)
+def analyzeInsts : List (Ir.Instr w) → Analysis → Analysis
+  | [], a => a
+  | i :: rest, a => analyzeInsts rest (analyzeInstr i a)
+end
+
+/-- `Analysis::analyze`. -/
+def analyze (b : Ir.Block w) : Analysis := (analyzeInsts b.insts Analysis.empty).close b.shift
+
+/-! ### generator state -/
+
+structure RangeInfo where
+  created : Nat
+  firstUse : Option Nat
+  lastUse : Option Nat
+  numUses : Nat
+  deriving Repr, Inhabited
+
+inductive GvnExpr (w : Nat) where
+  | imm (c : BitVec w)
+  | mem (v : Int)
+  | add (a b : Nat)
+  | sub (a b : Nat)
+  | mul (a b : Nat)
+  deriving Repr, DecidableEq, Inhabited
+
+structure St (w : Nat) where
+  writes : List (Int × List Nat) := []
+  ranges : Array RangeInfo := #[]
+  exprs : Array (GvnExpr w) := #[]
+  values : List (GvnExpr w × Nat) := []
+  insts : Array (Bc.Instr w) := #[]
+  live : Array Nat := #[]
+  isTarget : Array Bool := #[]
+  currentStart : Nat := 0
+  outerAccessed : Array Nat := #[]
+  deriving Inhabited
+
+abbrev M (w : Nat) := StateT (St w) (Except String)
+
+def pushInst (i : Bc.Instr w) : M w Unit := modify fun s => { s with insts := s.insts.push i }
+
+/-- `self.writes.entry(var).or_default().insert(pos)`. -/
+def addWrite (ws : List (Int × List Nat)) (var : Int) (pos : Nat) : List (Int × List Nat) :=
+  match alGet ws var with
+  | some l => alSet ws var (if l.contains pos then l else pos :: l)
+  | none => alSet ws var [pos]
+
+/-- `range_extend_to` on the range table. -/
+def extendTo (ranges : Array RangeInfo) (value to : Nat) : Except String (Array RangeInfo) :=
+  match ranges[value]? with
+  | none => .error "range_extend_to:ranges-index"
+  | some r =>
+    let r := if r.firstUse.isNone then { r with firstUse := some to } else r
+    .ok (ranges.setIfInBounds value { r with lastUse := some to })
+
+def rangeExtendTo (value to : Nat) : M w Unit := fun s =>
+  match extendTo s.ranges value to with
+  | .error e => .error e
+  | .ok rs => .ok ((), { s with ranges := rs })
+
+/-- `range_extend`. -/
+def rangeExtend (value : Nat) : M w Unit := do
+  let s ← get
+  match s.ranges[value]? with
+  | none => throw "range_extend:ranges-index"
+  | some r =>
+    if r.created < s.currentStart
+        && (match r.lastUse with | none => true | some l => l < s.currentStart) then
+      modify fun s => { s with outerAccessed := s.outerAccessed.push value }
+    rangeExtendTo value s.insts.size
+
+/-- `read`. -/
+def read (value : Nat) : M w Unit := do
+  rangeExtend value
+  modify fun s =>
+    match s.ranges[value]? with
+    | some r => { s with ranges := s.ranges.setIfInBounds value { r with numUses := r.numUses + 1 } }
+    | none => s
+
+/-- `get_value`. -/
+def getValue (e : GvnExpr w) : M w Nat := do
+  let s ← get
+  match alGet s.values e with
+  | some v => pure v
+  | none =>
+    let value := s.ranges.size
+    set { s with
+      ranges := s.ranges.push { created := s.insts.size, firstUse := none, lastUse := none, numUses := 0 }
+      exprs := s.exprs.push e }
+    match e with
+    | .add a b => do read a; read b
+    | .sub a b => do read a; read b
+    | .mul a b => do read a; read b
+    | _ => pure ()
+    let inst : Bc.Instr w :=
+      match e with
+      | .imm v => .copy (.tmp value) (.imm v)
+      | .mem v => .copy (.tmp value) (.mem v)
+      | .add a b => .add (.tmp value) (.tmp a) (.tmp b)
+      | .sub a b => .sub (.tmp value) (.tmp a) (.tmp b)
+      | .mul a b => .mul (.tmp value) (.tmp a) (.tmp b)
+    modify fun s => { s with insts := s.insts.push inst, values := alSet s.values e value }
+    pure value
+
+/-! ### `Expr::codegen` with `ordering = |x| if x == var { 1 } else { 0 }` -/
+
+def ordering (var x : Int) : Nat := if x = var then 1 else 0
+
+/-- `for var in sorted.into_iter().skip(1) { mem = codegen.mem(var); result = codegen.mul(result, mem) }`. -/
+def codegenVars (result : Nat) : List Int → M w Nat
+  | [] => pure result
+  | v :: vs => do
+    let m ← getValue (.mem v)
+    let r ← getValue (.mul result m)
+    codegenVars r vs
+
+/-- `codegen_part`. -/
+def codegenPart (var : Int) (p : Part w) : M w Nat :=
+  match Expr.stableSort (fun a b => decide (ordering var a ≤ ordering var b)) p.vars with
+  | [] => getValue (.imm p.coef)
+  | v0 :: vs => do
+    let r0 ← getValue (.mem v0)
+    let r ← codegenVars r0 vs
+    if p.coef = 1#w || p.coef = -1#w then pure r
+    else do
+      let imm ← getValue (.imm p.coef)
+      getValue (.mul r imm)
+
+/-- Sort key of a part: `part.vars.iter().map(ordering).min().unwrap_or(0)`. -/
+def partKey (var : Int) (p : Part w) : Nat :=
+  match p.vars with
+  | [] => 0
+  | v :: vs => vs.foldl (fun m x => min m (ordering var x)) (ordering var v)
+
+def isNegVar (p : Part w) : Bool := !p.vars.isEmpty && p.coef = -1#w
+
+/-- `position(|p| p.vars.is_empty() || p.coef != NEG_ONE)`. -/
+def findSwap : List (Part w) → Nat → Option Nat
+  | [], _ => none
+  | p :: ps, i => if p.vars.isEmpty || p.coef ≠ -1#w then some i else findSwap ps (i + 1)
+
+/-- The sorted part list of `Expr::codegen` after the optional `swap(0, idx)`. -/
+def orderParts (var : Int) (e : Expr w) : List (Part w) :=
+  let sorted := Expr.stableSort (fun a b => decide (partKey var a ≤ partKey var b)) e
+  match sorted with
+  | [] => []
+  | p0 :: _ =>
+    if isNegVar p0 then
+      match findSwap sorted 0 with
+      | some idx =>
+        let arr := sorted.toArray
+        match arr[idx]? with
+        | some pi => ((arr.setIfInBounds 0 pi).setIfInBounds idx p0).toList
+        | none => sorted
+      | none => sorted
+    else sorted
+
+def codegenRest (var : Int) (result : Nat) : List (Part w) → M w Nat
+  | [] => pure result
+  | p :: ps => do
+    let pr ← codegenPart var p
+    let r ← if isNegVar p then getValue (.sub result pr) else getValue (.add result pr)
+    codegenRest var r ps
+
+/-- `get_expr_value` = `expr.codegen(self, |x| if x == var { 1 } else { 0 })`. -/
+def getExprValue (e : Expr w) (var : Int) : M w Nat :=
+  match orderParts var e with
+  | [] => getValue (.imm 0#w)
+  | p0 :: ps => do
+    let r0 ← codegenPart var p0
+    let r ←
+      if isNegVar p0 then do
+        let z ← getValue (.imm 0#w)
+        getValue (.sub z r0)
+      else pure r0
+    codegenRest var r ps
+
+/-- `mem_write`. -/
+def memWrite (var : Int) (value : Nat) : M w Unit := do
+  read value
+  modify fun s =>
+    { s with
+      writes := addWrite s.writes var s.insts.size
+      values := alSet s.values (.mem var) value
+      insts := s.insts.push (.copy (.mem var) (.tmp value)) }
+
+def calcValues : List (Int × Expr w) → M w (List (Int × Nat))
+  | [] => pure []
+  | (v, e) :: rest => do
+    let x ← getExprValue e v
+    let r ← calcValues rest
+    pure ((v, x) :: r)
+
+def memWrites : List (Int × Nat) → M w Unit
+  | [] => pure ()
+  | (v, x) :: rest => do memWrite v x; memWrites rest
+
+/-- ORDER: `for &var in &sub_anal.writes { self.values.remove(&GvnExpr::Mem(var)) }` iterates a
+`HashSet`; removing a set of keys from a map commutes. -/
+def removeMems (values : List (GvnExpr w × Nat)) (vars : List Int) : List (GvnExpr w × Nat) :=
+  vars.foldl (fun vs v => alErase vs (.mem v)) values
+
+/-- The `while i < self.outer_accessed.len()` loop after a loop body. `range_extend` can in principle
+push onto `outer_accessed`; every value is pushed at most once here (afterwards its `last_use` is
+`insts.len() ≥ current_start`), so `fuel = |outer_accessed| + |ranges| + 1` iterations suffice. -/
+def outerLoop (prevStart : Nat) : Nat → Nat → M w Unit
+  | 0, _ => throw "emit_block:outer_accessed-loop-fuel"
+  | fuel + 1, i => do
+    let s ← get
+    if i < s.outerAccessed.size then
+      match s.outerAccessed[i]? with
+      | none => throw "emit_block:outer_accessed-index"
+      | some var =>
+        match s.ranges[var]? with
+        | none => throw "emit_block:ranges-index"
+        | some r =>
+          if r.created < prevStart then outerLoop prevStart fuel (i + 1)
+          else do
+            rangeExtend var
+            -- swap_remove(i)
+            modify fun s =>
+              match s.outerAccessed.back? with
+              | some last => { s with outerAccessed := (s.outerAccessed.setIfInBounds i last).pop }
+              | none => s
+            outerLoop prevStart fuel i
+    else pure ()
+
+/-- The `Loop`/`If` arm of `emit_block`; `emitBody ps` is the recursive `emit_block` call on the
+sub-block (whose `prev_start` is the value `ps` of `current_start` on entry). -/
+def emitLoopIf (fuse : Bool) (prevStart : Nat) (isLoop once : Bool) (cond shift : Int)
+    (bodyEmpty : Bool) (sub : Analysis) (emitBody : Nat → M w Unit) : M w Unit := do
+  if isLoop then
+    if sub.hasShift then modify fun s => { s with values := [] }
+    else modify fun s => { s with values := removeMems s.values sub.writes }
+  let s0 ← get
+  let prevExprs := s0.exprs.size
+  let numOuter := s0.outerAccessed.size
+  if !fuse || !isLoop || !bodyEmpty then
+    if !once then pushInst .noop
+    let startInstr := (← get).insts.size
+    if isLoop then modify fun s => { s with currentStart := startInstr }
+    emitBody (← get).currentStart
+    if shift != 0 then pushInst (.mov shift)
+    if isLoop then
+      let s ← get
+      outerLoop prevStart (s.outerAccessed.size + s.ranges.size + 1) numOuter
+      let off : Int := (startInstr : Int) - ((← get).insts.size : Int)
+      pushInst (.brnz cond off)
+    if !once then
+      if startInstr = 0 then throw "emit_block:start_instr-1-underflow"
+      let branchAt := startInstr - 1
+      let s ← get
+      if branchAt ≥ s.insts.size then throw "emit_block:insts-index"
+      let off : Int := (s.insts.size : Int) - (branchAt : Int)
+      set { s with insts := s.insts.setIfInBounds branchAt (.brz cond off) }
+    modify fun s => { s with currentStart := prevStart }
+  else
+    pushInst (.scan cond shift)
+  if sub.hasShift then modify fun s => { s with values := [] }
+  else if !once then
+    modify fun s =>
+      let vs := removeMems s.values sub.writes
+      { s with values := (s.exprs.toList.drop prevExprs).foldl (fun vs e => alErase vs e) vs }
+
+mutual
+/-- One iteration of the loop in `emit_block`; consumes `anal.sub_anal[block_idx]` from the list. -/
+def emitInstr (fuse : Bool) (prevStart : Nat) : Ir.Instr w → List Analysis → M w (List Analysis)
+  | .output src, an => do pushInst (.out src); pure an
+  | .input dst, an => do
+    modify fun s =>
+      { s with
+        values := alErase s.values (.mem dst)
+        writes := addWrite s.writes dst s.insts.size
+        insts := s.insts.push (.inp dst) }
+    pure an
+  | .calc calcs, an => do
+    let vals ← calcValues calcs
+    memWrites vals
+    pure an
+  | .loop cond shift body once, an =>
+    match an with
+    | [] => throw "emit_block:sub_anal-index"
+    | sub :: an' => do
+      emitLoopIf fuse prevStart true once cond shift body.isEmpty sub
+        (fun ps => emitInsts fuse ps body sub.subAnal)
+      pure an'
+  | .ifnz cond shift body, an =>
+    match an with
+    | [] => throw "emit_block:sub_anal-index"
+    | sub :: an' => do
+      emitLoopIf fuse prevStart false false cond shift body.isEmpty sub
+        (fun ps => emitInsts fuse ps body sub.subAnal)
+      pure an'
+/-- `emit_block` on the instruction list of a block. -/
+def emitInsts (fuse : Bool) (prevStart : Nat) : List (Ir.Instr w) → List Analysis → M w Unit
+  | [], _ => pure ()
+  | i :: rest, an => do
+    let an' ← emitInstr fuse prevStart i an
+    emitInsts fuse prevStart rest an'
+end
+
+/-! ### `dead_store_elim` -/
+
+inductive Op where
+  | add | sub | mul
+  deriving Repr, DecidableEq, Inhabited
+
+def arith? : Bc.Instr w → Option (Op × Bc.Loc w × Bc.Loc w × Bc.Loc w)
+  | .add d a b => some (.add, d, a, b)
+  | .sub d a b => some (.sub, d, a, b)
+  | .mul d a b => some (.mul, d, a, b)
+  | _ => none
+
+def mkArith : Op → Bc.Loc w → Bc.Loc w → Bc.Loc w → Bc.Instr w
+  | .add, d, a, b => .add d a b
+  | .sub, d, a, b => .sub d a b
+  | .mul, d, a, b => .mul d a b
+
+/-- `if let Loc::Tmp(tmp) = src { self.ranges[tmp].num_uses -= 1 }`. -/
+def decUse (ranges : Array RangeInfo) : Bc.Loc w → Except String (Array RangeInfo)
+  | .tmp t =>
+    match ranges[t]? with
+    | none => .error "dead_store_elim:ranges-index"
+    | some r =>
+      if r.numUses = 0 then .error "dead_store_elim:num_uses-underflow"
+      else .ok (ranges.setIfInBounds t { r with numUses := r.numUses - 1 })
+  | _ => .ok ranges
+
+def remMem (dead : List Int) : Bc.Loc w → List Int
+  | .mem m => setErase dead m
+  | _ => dead
+
+/-- Second `match` of the loop body (the instruction survived). -/
+def dseReads (dead : List Int) : Bc.Instr w → List Int
+  | .noop => dead
+  | .add _ s0 s1 => remMem (remMem dead s1) s0
+  | .sub _ s0 s1 => remMem (remMem dead s1) s0
+  | .mul _ s0 s1 => remMem (remMem dead s1) s0
+  | .copy _ s => remMem dead s
+  | .brnz _ _ => []
+  | .brz _ _ => []
+  | .mov _ => []
+  | .scan _ _ => []
+  | .out m => setErase dead m
+  | .inp m => setInsert dead m
+
+def dseStep (i : Nat) (s : St w) (dead : List Int) : Except String (St w × List Int) := do
+  match s.insts[i]? with
+  | none => .error "dead_store_elim:insts-index"
+  | some inst =>
+    let kill (srcs : List (Bc.Loc w)) : Except String (St w × List Int) := do
+      let rs ← srcs.foldlM decUse s.ranges
+      pure ({ s with ranges := rs, insts := s.insts.setIfInBounds i .noop }, dead)
+    match inst with
+    | .copy (.mem mem) src =>
+      if dead.contains mem then kill [src]
+      else pure (s, dseReads (setInsert dead mem) inst)
+    | _ =>
+      match arith? inst with
+      | some (_, .mem mem, s0, s1) =>
+        if dead.contains mem then kill [s0, s1]
+        else pure (s, dseReads (setInsert dead mem) inst)
+      | some (_, .tmp tmp, s0, s1) =>
+        match s.ranges[tmp]? with
+        | none => .error "dead_store_elim:ranges-index"
+        | some r =>
+          if r.numUses = 0 then kill [s0, s1]
+          else pure (s, dseReads dead inst)
+      | _ => pure (s, dseReads dead inst)
+
+/-- `for i in (0..n).rev()`. -/
+def dseLoop : Nat → St w → List Int → Except String (St w)
+  | 0, s, _ => .ok s
+  | i + 1, s, dead =>
+    match dseStep i s dead with
+    | .error e => .error e
+    | .ok (s, dead) => dseLoop i s dead
+
+def deadStoreElim (s : St w) : Except String (St w) := dseLoop s.insts.size s []
+
+/-! ### `allocate_temps` -/
+
+/-- `has_write_in_range`. -/
+def hasWriteInRange (s : St w) (var : Int) (lo hi : Nat) : Bool :=
+  decide (lo < hi) &&
+    (match alGet s.writes var with
+     | some ws => ws.any (fun x => decide (lo ≤ x) && decide (x < hi))
+     | none => false)
+
+structure ASt (w : Nat) where
+  st : St w
+  nextFresh : Nat
+  freeRegs : List Nat
+  freeTemps : List Nat
+  nre : List (Nat × Nat)
+  repl : List (Nat × Bc.Loc w)
+
+abbrev A (w : Nat) := StateT (ASt w) (Except String)
+
+def instAt (site : String) (i : Nat) : A w (Bc.Instr w) := do
+  match (← get).st.insts[i]? with
+  | some x => pure x
+  | none => throw site
+
+def setInst (i : Nat) (x : Bc.Instr w) : A w Unit :=
+  modify fun a => { a with st := { a.st with insts := a.st.insts.setIfInBounds i x } }
+
+def rangeAt (site : String) (t : Nat) : A w RangeInfo := do
+  match (← get).st.ranges[t]? with
+  | some r => pure r
+  | none => throw site
+
+def lastUseOf (site : String) (t : Nat) : A w Nat := do
+  let r ← rangeAt "allocate_temps:ranges-index" t
+  match r.lastUse with
+  | some l => pure l
+  | none => throw site
+
+/-- The `while let Some(..) = next_range_end.peek()` loop; returns `about_to_free`. Every round pops one
+element and pushes at most one whose second visit (if any) frees it: `2·|heap| + 2` rounds suffice. -/
+def drainEnds (i : Nat) : Nat → List Nat → A w (List Nat)
+  | 0, _ => throw "allocate_temps:next_range_end-loop-fuel"
+  | fuel + 1, atf => do
+    let a ← get
+    match a.nre with
+    | [] => pure atf
+    | (end_, tmp) :: _ =>
+      if end_ ≤ i then
+        let lastUse ← lastUseOf "allocate_temps:peek:last_use.unwrap" tmp
+        let (atf, nre) :=
+          if end_ ≥ lastUse then (setInsert atf tmp, a.nre)
+          else (atf, nrePush (lastUse, tmp) a.nre)
+        -- `next_range_end.pop()`: removes the maximum of the heap AFTER the push
+        modify fun a => { a with nre := nre.drop 1 }
+        drainEnds i fuel atf
+      else pure atf
+
+def dstTmp? : Bc.Instr w → Option Nat
+  | .add (.tmp t) _ _ => some t
+  | .sub (.tmp t) _ _ => some t
+  | .mul (.tmp t) _ _ => some t
+  | .copy (.tmp t) _ => some t
+  | _ => none
+
+/-- One source operand of the `all(..)` in the fusion test: `true` = does not block. -/
+def srcOk (a : ASt w) (i firstUse : Nat) : Bc.Loc w → Except String Bool
+  | .mem m => .ok (!hasWriteInRange a.st m i firstUse)
+  | .tmp t =>
+    match alGet a.repl t with
+    | none => .error "allocate_temps:fusion:replacements.get.unwrap"
+    | some (.mem m) => .ok (!hasWriteInRange a.st m i firstUse)
+    | some _ => .ok true
+  | _ => .ok true
+
+/-- `range_extend_to(tmp, first_use); if about_to_free.remove(&tmp) { next_range_end.push(..) }`. -/
+def fuseSrc (firstUse : Nat) (atf : List Nat) : Bc.Loc w → A w (List Nat)
+  | .tmp t => do
+    let a ← get
+    match extendTo a.st.ranges t firstUse with
+    | .error e => throw e
+    | .ok rs =>
+      set { a with st := { a.st with ranges := rs } }
+      if atf.contains t then
+        modify fun a => { a with nre := nrePush (firstUse, t) a.nre }
+        pure (setErase atf t)
+      else pure atf
+  | _ => pure atf
+
+/-- `*src = *replacements.get(tmp).unwrap()`. -/
+def replSrc (repl : List (Nat × Bc.Loc w)) : Bc.Loc w → Except String (Bc.Loc w)
+  | .tmp t =>
+    match alGet repl t with
+    | some l => .ok l
+    | none => .error "allocate_temps:replace:replacements.get.unwrap"
+  | l => .ok l
+
+/-- The `alloc_temp` closure applied to `insts[i]` whose destination is `Tmp(old)`. -/
+def allocTemp (i old : Nat) : A w Unit := do
+  let lastUse ← lastUseOf "allocate_temps:alloc_temp:last_use.unwrap" old
+  if lastUse < i then throw "allocate_temps:alloc_temp:last_use-i-underflow"
+  let live := lastUse - i
+  let a ← get
+  let (tmp?, freeRegs) : Option Nat × List Nat :=
+    if live < 16 || a.freeRegs.length > 2 then
+      match a.freeRegs with
+      | r :: rs => (some r, rs)
+      | [] => (none, [])
+    else (none, a.freeRegs)
+  let (tmp, freeTemps, nextFresh) : Nat × List Nat × Nat :=
+    match tmp? with
+    | some t => (t, a.freeTemps, a.nextFresh)
+    | none =>
+      match a.freeTemps with
+      | t :: ts => (t, ts, a.nextFresh)
+      | [] => (a.nextFresh, [], a.nextFresh + 1)
+  let inst ← instAt "allocate_temps:insts-index" i
+  let inst' : Bc.Instr w :=
+    match inst with
+    | .add _ s0 s1 => .add (.tmp tmp) s0 s1
+    | .sub _ s0 s1 => .sub (.tmp tmp) s0 s1
+    | .mul _ s0 s1 => .mul (.tmp tmp) s0 s1
+    | .copy _ s => .copy (.tmp tmp) s
+    | x => x
+  set { a with
+    freeRegs := freeRegs, freeTemps := freeTemps, nextFresh := nextFresh
+    repl := alSet a.repl old (.tmp tmp)
+    nre := nrePush (lastUse, old) a.nre
+    st := { a.st with insts := a.st.insts.setIfInBounds i inst' } }
+
+/-- `replacements.insert(tmp, src); next_range_end.push((Reverse(last_use), tmp)); insts[i] = Noop`. -/
+def forward (i tmp lastUse : Nat) (src : Bc.Loc w) : A w Unit :=
+  modify fun a =>
+    { a with
+      repl := alSet a.repl tmp src
+      nre := nrePush (lastUse, tmp) a.nre
+      st := { a.st with insts := a.st.insts.setIfInBounds i .noop } }
+
+/-- ORDER: `for tmp in about_to_free` iterates a `HashSet`; the body removes distinct keys from
+`replacements` and pushes the freed locations onto the min-heaps `free_regs`/`free_temps`, whose later
+behaviour depends only on the multiset of their elements. -/
+def freeAll (numRegs : Nat) : List Nat → A w Unit
+  | [] => pure ()
+  | t :: ts => do
+    let a ← get
+    match alGet a.repl t with
+    | some (.tmp r) =>
+      if r < numRegs then
+        set { a with repl := alErase a.repl t, freeRegs := minPush r a.freeRegs }
+      else
+        set { a with repl := alErase a.repl t, freeTemps := minPush r a.freeTemps }
+      freeAll numRegs ts
+    | _ => do
+      set { a with repl := alErase a.repl t }
+      freeAll numRegs ts
+
+/-- The bitmap pushed onto `self.live`.
+ORDER: `for &Reverse(var) in &free_regs` walks the heap's internal array; the subtractions commute. -/
+def liveMask (numRegs : Nat) (freeRegs : List Nat) : Except String Nat :=
+  let base := if numRegs < 16 then 2 ^ numRegs - 1 else 65535
+  freeRegs.foldlM (fun live var =>
+    if var < 16 then
+      if live < 2 ^ var then .error "allocate_temps:live-underflow" else .ok (live - 2 ^ var)
+    else .ok live) base
+
+def allocStep (numRegs i : Nat) : A w Unit := do
+  -- 1. ranges that have ended
+  let atf0 ← drainEnds i (2 * (← get).nre.length + 2) []
+  let inst0 ← instAt "allocate_temps:insts-index" i
+  -- 2. `can_alloc_reg`
+  let canAllocReg ←
+    match dstTmp? inst0 with
+    | some tmp => do
+      let lastUse ← lastUseOf "allocate_temps:can_alloc_reg:last_use.unwrap" tmp
+      if lastUse < i then throw "allocate_temps:can_alloc_reg:last_use-i-underflow"
+      let live := lastUse - i
+      let a ← get
+      pure ((live < 16 || a.freeRegs.length > 2)
+        && (!a.freeRegs.isEmpty || atf0.any (fun x => decide (x < numRegs))))
+    | none => pure false
+  -- 3. move a computation to its only/first use if that is a store to memory
+  let mut atf := atf0
+  match arith? inst0 with
+  | some (_, .tmp tmp, s0, s1) =>
+    let r ← rangeAt "allocate_temps:ranges-index" tmp
+    match r.lastUse with
+    | some lastUse =>
+      let firstUse ←
+        match r.firstUse with
+        | some f => pure f
+        | none => throw "allocate_temps:first_use.unwrap"
+      let fi ← instAt "allocate_temps:insts[first_use]-index" firstUse
+      match fi with
+      | .copy (.mem mem) _ =>
+        let a ← get
+        let c1 := (r.numUses == 1 || !canAllocReg) && !hasWriteInRange a.st mem (firstUse + 1) lastUse
+        let ok ←
+          if c1 then
+            match srcOk a i firstUse s0 with
+            | .error e => throw e
+            | .ok false => pure false
+            | .ok true =>
+              match srcOk a i firstUse s1 with
+              | .error e => throw e
+              | .ok b => pure b
+          else pure false
+        if ok then
+          atf ← fuseSrc firstUse atf s0
+          atf ← fuseSrc firstUse atf s1
+          modify fun a =>
+            { a with repl := alSet a.repl tmp (.mem mem), nre := nrePush (lastUse, tmp) a.nre }
+          setInst firstUse inst0
+          setInst i .noop
+          match arith? (← instAt "allocate_temps:insts[first_use]-index" firstUse) with
+          | some (op, _, x0, x1) => setInst firstUse (mkArith op (.mem mem) x0 x1)
+          | none => pure ()
+      | _ => pure ()
+    | none => pure ()
+  | _ => pure ()
+  -- 4. rewrite the sources of `insts[i]`
+  let inst1 ← instAt "allocate_temps:insts-index" i
+  let repl := (← get).repl
+  match inst1 with
+  | .copy d s =>
+    match replSrc repl s with
+    | .error e => throw e
+    | .ok s' => setInst i (.copy d s')
+  | _ =>
+    match arith? inst1 with
+    | some (op, d, s0, s1) =>
+      match replSrc repl s0 with
+      | .error e => throw e
+      | .ok s0' =>
+        match replSrc repl s1 with
+        | .error e => throw e
+        | .ok s1' => setInst i (mkArith op d s0' s1')
+    | none => pure ()
+  -- 5. release the locations of the ended ranges
+  freeAll numRegs atf
+  -- 6. live bitmap
+  match liveMask numRegs (← get).freeRegs with
+  | .error e => throw e
+  | .ok live => modify fun a => { a with st := { a.st with live := a.st.live.push live } }
+  -- 7. destination
+  let inst2 ← instAt "allocate_temps:insts-index" i
+  match inst2 with
+  | .copy (.tmp tmp) src =>
+    let r ← rangeAt "allocate_temps:ranges-index" tmp
+    match r.lastUse with
+    | some lastUse =>
+      if r.numUses == 0 then setInst i .noop
+      else
+        match src with
+        | .imm _ => forward i tmp lastUse src
+        | .mem mem =>
+          if (r.numUses == 1 || !canAllocReg) && !hasWriteInRange (← get).st mem i lastUse then
+            forward i tmp lastUse src
+          else allocTemp i tmp
+        | _ => allocTemp i tmp
+    | none => setInst i .noop
+  | _ =>
+    match arith? inst2 with
+    | some (_, .tmp tmp, _, _) =>
+      let r ← rangeAt "allocate_temps:ranges-index" tmp
+      if r.numUses != 0 then allocTemp i tmp else setInst i .noop
+    | _ => pure ()
+
+def allocLoop (numRegs n : Nat) : Nat → A w Unit
+  | 0 => pure ()
+  | k + 1 => do
+    allocStep numRegs (n - (k + 1))
+    allocLoop numRegs n k
+
+/-- `allocate_temps`. -/
+def allocateTemps (numRegs : Nat) (s : St w) : Except String (St w) :=
+  let n := s.insts.size
+  let init : ASt w :=
+    { st := s, nextFresh := numRegs, freeRegs := List.range numRegs, freeTemps := [], nre := [], repl := [] }
+  match (allocLoop numRegs n n).run init with
+  | .error e => .error e
+  | .ok (_, a) => if a.repl.isEmpty then .ok a.st else .error "allocate_temps:assert-replacements-empty"
+
+/-! ### `parameter_reordering` -/
+
+def isImm : Bc.Loc w → Bool
+  | .imm _ => true
+  | _ => false
+
+/-- The third `match` (commutative operations). -/
+def reorderComm (dst s0 s1 : Bc.Loc w) : Bc.Loc w × Bc.Loc w :=
+  let (s0, s1) :=
+    match s0, s1 with
+    | .tmp t0, .tmp t1 => if t1 < t0 then (s1, s0) else (s0, s1)
+    | .tmp _, _ => (s1, s0)
+    | _, _ => (s0, s1)
+  let (s0, s1) := if isImm s0 then (s1, s0) else (s0, s1)
+  if dst = s1 then (s1, s0) else (s0, s1)
+
+/-- The body of the loop in `parameter_reordering` (the instructions are independent, so the
+iteration order is immaterial). -/
+def reorderInst (inst : Bc.Instr w) : Bc.Instr w :=
+  let inst : Bc.Instr w :=
+    match inst with
+    | .add dst (.imm a) (.imm b) => .copy dst (.imm (a + b))
+    | .sub dst (.imm a) (.imm b) => .copy dst (.imm (a + (-b)))
+    | .mul dst (.imm a) (.imm b) => .copy dst (.imm (a * b))
+    | x => x
+  let inst : Bc.Instr w :=
+    match inst with
+    | .sub dst s0 (.imm c) => .add dst s0 (.imm (-c))
+    | x => x
+  match inst with
+  | .add dst s0 s1 => let (a, b) := reorderComm dst s0 s1; .add dst a b
+  | .mul dst s0 s1 => let (a, b) := reorderComm dst s0 s1; .mul dst a b
+  | x => x
+
+def parameterReordering (s : St w) : St w := { s with insts := s.insts.map reorderInst }
+
+/-! ### `record_branch_targets`, `zeroing_move_detection` -/
+
+def branchOff? : Bc.Instr w → Option Int
+  | .brz _ off => some off
+  | .brnz _ off => some off
+  | _ => none
+
+/-- `i.wrapping_add_signed(off)` used as an index into an array of size `bound`. -/
+def target (site : String) (i : Nat) (off : Int) (bound : Nat) : Except String Nat :=
+  let t : Int := (i : Int) + off
+  if t < 0 then .error site
+  else if t.toNat < bound then .ok t.toNat else .error site
+
+def rbtLoop (insts : Array (Bc.Instr w)) : Nat → Array Bool → Except String (Array Bool)
+  | 0, tg => .ok tg
+  | k + 1, tg =>
+    let i := insts.size - (k + 1)
+    match insts[i]? with
+    | none => .error "record_branch_targets:insts-index"
+    | some inst =>
+      match branchOff? inst with
+      | some off =>
+        match target "record_branch_targets:is_target-index" i off tg.size with
+        | .error e => .error e
+        | .ok t => rbtLoop insts k (tg.setIfInBounds t true)
+      | none => rbtLoop insts k tg
+
+def recordBranchTargets (s : St w) : Except String (St w) :=
+  -- `self.is_target.resize(n + 1, false)` on an empty vector
+  match rbtLoop s.insts s.insts.size (Array.replicate (s.insts.size + 1) false) with
+  | .error e => .error e
+  | .ok tg => .ok { s with isTarget := tg }
+
+/-- `if let Loc::Mem(mem) = src { if let Some(j) = zerod.remove(mem) { *src = MemZero(mem); .. } }`:
+new operand, new map, instruction to blank. -/
+def zeroSrc (zerod : List (Int × Nat)) : Bc.Loc w → Bc.Loc w × List (Int × Nat) × Option Nat
+  | .mem m =>
+    match alGet zerod m with
+    | some j => (.memZero m, alErase zerod m, some j)
+    | none => (.mem m, zerod, none)
+  | l => (l, zerod, none)
+
+def blank (insts : Array (Bc.Instr w)) : Option Nat → Array (Bc.Instr w)
+  | some j => insts.setIfInBounds j .noop
+  | none => insts
+
+def zmdStep (i : Nat) (s : St w) (zerod : List (Int × Nat)) : Except String (St w × List (Int × Nat)) := do
+  match s.insts[i]? with
+  | none => .error "zeroing_move_detection:insts-index"
+  | some inst =>
+    let (insts, zerod) : Array (Bc.Instr w) × List (Int × Nat) :=
+      match inst with
+      | .noop => (s.insts, zerod)
+      | .copy dst src =>
+        let zerod :=
+          match dst with
+          | .mem mem =>
+            let z := alErase zerod mem
+            match src with
+            | .imm c => if c = 0#w then alSet z mem i else z
+            | _ => z
+          | _ => zerod
+        let (src', zerod, j) := zeroSrc zerod src
+        (blank (s.insts.setIfInBounds i (.copy dst src')) j, zerod)
+      | .brnz _ _ => (s.insts, [])
+      | .brz _ _ => (s.insts, [])
+      | .mov _ => (s.insts, [])
+      | .scan _ _ => (s.insts, [])
+      | .out mem => (s.insts, alErase zerod mem)
+      | .inp mem => (s.insts, alErase zerod mem)
+      | _ =>
+        match arith? inst with
+        | some (op, dst, s0, s1) =>
+          let zerod := match dst with | .mem mem => alErase zerod mem | _ => zerod
+          -- `for src in [src1, src0]`
+          let (s1', zerod, j1) := zeroSrc zerod s1
+          let (s0', zerod, j0) := zeroSrc zerod s0
+          (blank (blank (s.insts.setIfInBounds i (mkArith op dst s0' s1')) j1) j0, zerod)
+        | none => (s.insts, zerod)
+    match s.isTarget[i]? with
+    | none => .error "zeroing_move_detection:is_target-index"
+    | some t => pure ({ s with insts := insts }, if t then [] else zerod)
+
+def zmdLoop : Nat → St w → List (Int × Nat) → Except String (St w)
+  | 0, s, _ => .ok s
+  | i + 1, s, zerod =>
+    match zmdStep i s zerod with
+    | .error e => .error e
+    | .ok (s, zerod) => zmdLoop i s zerod
+
+def zeroingMoveDetection (s : St w) : Except String (St w) := zmdLoop s.insts.size s []
+
+/-! ### `strip_noops`, `count_temps`, `translate` -/
+
+def isNoop : Bc.Instr w → Bool
+  | .noop => true
+  | _ => false
+
+/-- `cum_noop`: entry `k` is the number of `Noop`s among the first `k` instructions. -/
+def cumNoop (insts : Array (Bc.Instr w)) : Array Int :=
+  (insts.foldl (fun (acc : Array Int × Int) x =>
+    let c := if isNoop x then acc.2 + 1 else acc.2
+    (acc.1.push c, c)) (#[0], 0)).1
+
+def fixBranches (cum : Array Int) (insts : Array (Bc.Instr w)) :
+    Nat → Array (Bc.Instr w) → Except String (Array (Bc.Instr w))
+  | 0, acc => .ok acc
+  | k + 1, acc =>
+    let i := insts.size - (k + 1)
+    match insts[i]? with
+    | none => .error "strip_noops:insts-index"
+    | some inst =>
+      match branchOff? inst with
+      | some off =>
+        match target "strip_noops:cum_noop-index" i off cum.size with
+        | .error e => .error e
+        | .ok t =>
+          let off' := off - (cum[t]?.getD 0 - cum[i]?.getD 0)
+          let inst' : Bc.Instr w :=
+            match inst with
+            | .brz c _ => .brz c off'
+            | .brnz c _ => .brnz c off'
+            | x => x
+          fixBranches cum insts k (acc.push inst')
+      | none => fixBranches cum insts k (acc.push inst)
+
+def stripNoops (s : St w) : Except String (St w) :=
+  match fixBranches (cumNoop s.insts) s.insts s.insts.size (Array.mkEmpty s.insts.size) with
+  | .error e => .error e
+  | .ok insts =>
+    -- `self.live.retain(..)` indexes `self.insts[idx - 1]` for every element of `live`
+    if s.live.size > insts.size then .error "strip_noops:live.retain-insts-index"
+    else
+      let live := ((s.live.toList.zip insts.toList).filter (fun li => !isNoop li.2)).map (·.1)
+      .ok { s with live := live.toArray, insts := insts.filter (fun x => !isNoop x) }
+
+def locMax : Bc.Loc w → Nat
+  | .tmp t => t + 1
+  | _ => 0
+
+def instTemps : Bc.Instr w → Nat
+  | .add a b c => max (locMax a) (max (locMax b) (locMax c))
+  | .sub a b c => max (locMax a) (max (locMax b) (locMax c))
+  | .mul a b c => max (locMax a) (max (locMax b) (locMax c))
+  | .copy a b => max (locMax a) (locMax b)
+  | _ => 0
+
+/-- `count_temps`. -/
+def countTemps (insts : Array (Bc.Instr w)) : Nat := insts.foldl (fun m x => max m (instTemps x)) 0
+
+/-- `CodeGen::translate`; `.error site` where the Rust would panic. -/
+def translateE (prog : Ir.Block w) (numRegs : Nat) (fuse : Bool) : Except String (Bc.Program w) := do
+  let analysis := analyze prog
+  let (_, s) ← (emitInsts fuse 0 prog.insts analysis.subAnal).run ({} : St w)
+  let s ← deadStoreElim s
+  let s ← allocateTemps numRegs s
+  let s := parameterReordering s
+  let s ← if fuse then (do let s ← recordBranchTargets s; zeroingMoveDetection s) else pure s
+  let s ← stripNoops s
+  pure { temps := countTemps s.insts, minAcc := analysis.minAcc, maxAcc := analysis.maxAcc,
+         live := s.live, insts := s.insts }
+
+/-- `CodeGen::translate`; a modelled panic yields the sentinel `temps = 999999` with no instructions. -/
+def translate (prog : Ir.Block w) (numRegs : Nat) (fuse : Bool) : Bc.Program w :=
+  match translateE prog numRegs fuse with
+  | .ok p => p
+  | .error _ => { temps := 999999, minAcc := 1, maxAcc := 0, live := #[], insts := #[] }
 
 end BcGen
 end Hpbf
